@@ -96,6 +96,9 @@ def strategy(tier):
     return st.fixed_dictionaries({
         'aio': st.booleans(), 'coro': st.booleans(),
         'coro_cb': st.booleans(),
+        # the namespace served by the class-based namespace object also has
+        # a function handler for an event the server never sends
+        'decoy': st.booleans(),
         'nss': st.lists(nsi, min_size=1, max_size=3, unique=True),
         'ops': st.lists(op, min_size=4, max_size=60 if big else 25)})
 
@@ -162,6 +165,8 @@ def _run(case, h):
     o.on_a = mk('class', '/b')
     o.on_b = mk('class', '/b')
     sio.register_namespace(o)
+    if case.get('decoy'):
+        sio.on('never sent', mk('decoy', '/b'), namespace='/b')
 
     nss = [NSS[i] for i in case['nss']]
 
